@@ -85,6 +85,8 @@ def main(pid, tier, replay_path=None, only=None):
         sel = [h for h in hs if pid in h.props and (tier == "thorough" or h.tier == "quick")]
         if grp.get("tier_only"):
             sel = [h for h in sel if tier == grp["tier_only"] or tier == "thorough"]
+        if grp.get("names", {}).get(tier):
+            sel = [h for h in sel if h.name in grp["names"][tier]]
         if only:
             sel = [h for h in sel if h.name in only]
         if not sel:
@@ -149,6 +151,7 @@ def handle_kani_result(pid, grp, h, r, verdict, ev, kfs):
            "symex_s": round(float(stats.get("runtime_symex_s", 0) or 0), 2),
            "vccs": stats.get("vccs_generated"), "reason": r.get("reason", "")}
     ev["harness_results"].append(rec)
+    ev.setdefault("attempted", []).append(dict(h.as_sample(), status=st))
     if st == "discharged":
         ev["discharged"] += r.get("checks", 0) + len(cs)
         for c in cs:
@@ -240,7 +243,7 @@ def write_evidence(pid, tier, seed, cfg, ev, verdict, wall, partial=False):
                  "(harness, cover goal) pairs that the solver showed SATISFIED in a fully discharged harness, i.e. "
                  "distinct branch classes of the real code proven reachable inside a proof that passed (vacuity witnesses); "
                  "for SMT engines: distinct instances whose verdict was re-decided by the second solver"),
-        "samples": ev["samples"][:40],
+        "samples": (ev["samples"] or ev.get("attempted", []))[:40],
         "obligations": ev["obligations"],
         "discharged": ev["discharged"],
         "queries": ev["queries"],
